@@ -148,10 +148,13 @@ func vFault(format string, a ...interface{}) {
 
 // vViolationPanic carries a property failure out of a nested helper (for instance "a command failed on valid generated
 // input" seen inside a run closure); vCheckOne turns it into an ordinary failure of the case.
-type vViolationPanic struct{ msg string }
+type vViolationPanic struct {
+	msg string
+	sig string
+}
 
 func vViolate(format string, a ...interface{}) {
-	panic(vViolationPanic{fmt.Sprintf(format, a...)})
+	panic(vViolationPanic{msg: fmt.Sprintf(format, a...)})
 }
 
 type vFailFile struct {
@@ -342,6 +345,7 @@ func vCheckOne[C any](property, kind string, c C, ts *vTestStats, frozen bool, c
 	if err != nil {
 		vFault("cannot marshal case: %v", err)
 	}
+	vWatchCurrent(property, kind, caseJSON)
 	// journal the case so that a worker death is still attributable
 	if vOutDir != "" && os.Getenv("VERIF_JOURNAL") != "" {
 		_ = os.WriteFile(filepath.Join(vOutDir, "journal-"+kind+".json"), caseJSON, 0o644)
@@ -350,7 +354,7 @@ func vCheckOne[C any](property, kind string, c C, ts *vTestStats, frozen bool, c
 		defer func() {
 			if r := recover(); r != nil {
 				if vp, ok := r.(vViolationPanic); ok {
-					f = &vFailure{Msg: vp.msg}
+					f = &vFailure{Msg: vp.msg, Signature: vp.sig}
 					return
 				}
 				if hf, ok := r.(vHarnessFault); ok {
@@ -471,11 +475,12 @@ func TestVerifReplay(t *testing.T) {
 		t.Fatalf("HARNESS-FAULT unknown case kind %q", ff.Kind)
 	}
 	var f *vFailure
+	vWatchCurrent(ff.Property, ff.Kind, ff.Case)
 	func() {
 		defer func() {
 			if r := recover(); r != nil {
 				if vp, ok := r.(vViolationPanic); ok {
-					f = &vFailure{Msg: vp.msg}
+					f = &vFailure{Msg: vp.msg, Signature: vp.sig}
 					return
 				}
 				if hf, ok := r.(vHarnessFault); ok {
@@ -618,6 +623,8 @@ type vExitPanic struct{ code int }
 func vRunApp(inv vInvocation) vRun { return vRunAppTo(inv, nil) }
 
 func vRunAppTo(inv vInvocation, stdoutOverride *os.File) (res vRun) {
+	vWatchArm(vWatchLimit)
+	defer vWatchDisarm()
 	vCaptureFiles()
 	oldOut, oldErr, oldLocal, oldExiter := os.Stdout, os.Stderr, time.Local, cli.OsExiter
 	oldErrWriter := cli.ErrWriter
@@ -718,6 +725,73 @@ type vAPICmd struct {
 	UsesLog bool
 	UsesDB  bool
 	Run     func(logR, dbR io.Reader, out io.Writer, x string) error
+}
+
+
+// ---------------------------------------------------------------------------
+// watchdog for non-termination. Every in-process run of the program happens between vWatchArm and vWatchDisarm; a run
+// that does not come back within the limit (typical run: milliseconds; the largest generated inputs: seconds) is
+// recorded as a failure of the current case with the signature "<property>/hang" and the worker exits; the driver
+// believes it only if the case, re-run alone in a fresh process, exceeds the limit three times in a row. A real-binary
+// run that exceeds its timeout is reported through vHang with the same signature and the same confirmation.
+
+var (
+	vWatchMu       sync.Mutex
+	vWatchProperty string
+	vWatchKind     string
+	vWatchCase     []byte
+	vWatchDeadline time.Time
+	vWatchArmed    bool
+	vWatchOnce     sync.Once
+	vWatchLimit    = 120 * time.Second
+)
+
+func vWatchCurrent(property, kind string, caseJSON []byte) {
+	vWatchMu.Lock()
+	vWatchProperty, vWatchKind, vWatchCase = property, kind, caseJSON
+	vWatchMu.Unlock()
+}
+
+func vWatchArm(limit time.Duration) {
+	vWatchOnce.Do(func() {
+		go func() {
+			for {
+				time.Sleep(500 * time.Millisecond)
+				vWatchMu.Lock()
+				armed, dl, prop, kind, cur := vWatchArmed, vWatchDeadline, vWatchProperty, vWatchKind, vWatchCase
+				vWatchMu.Unlock()
+				if !armed || !time.Now().After(dl) || prop == "" {
+					continue
+				}
+				msg := "a run of the program did not terminate within its time limit (a typical run takes milliseconds)"
+				if os.Getenv("VERIF_REPLAY") != "" && vOutDir != "" {
+					rb, _ := json.Marshal(map[string]interface{}{"property": prop, "kind": kind, "failed": true, "signature": prop + "/hang", "message": msg})
+					_ = os.WriteFile(filepath.Join(vOutDir, "replay-result.json"), rb, 0o644)
+					os.Exit(3)
+				}
+				vSaveFailure(prop, kind, cur, &vFailure{Msg: msg, Signature: prop + "/hang"})
+				vAll.dump()
+				os.Exit(3)
+			}
+		}()
+	})
+	vWatchMu.Lock()
+	vWatchArmed, vWatchDeadline = true, time.Now().Add(limit)
+	vWatchMu.Unlock()
+}
+
+func vWatchDisarm() {
+	vWatchMu.Lock()
+	vWatchArmed = false
+	vWatchMu.Unlock()
+}
+
+// vHang reports that a separate process running the program had to be killed at its timeout.
+func vHang(format string, a ...interface{}) {
+	vWatchMu.Lock()
+	prop := vWatchProperty
+	vWatchMu.Unlock()
+	panic(vViolationPanic{msg: fmt.Sprintf(format, a...), sig: prop + "/hang"})
 }
 
 // vFlagInfo describes one option of the program as its own flag definitions declare it: the surface is read from
